@@ -5,17 +5,25 @@ package main
 // Thin in-package driver for the console monitor (C20). It is NOT a file of
 // the repository: it is injected at build time with `go test -overlay`. It
 // feeds byte streams to the real Terminal and reports what ReadLine returned,
-// tokenised with the real SQL tokenizer. It judges nothing.
+// tokenised with the real SQL tokenizer (TestVerifDriver), and drives the
+// console's runTerminal loop on a pseudo-terminal (TestVerifE2E). It judges
+// nothing.
 
 import (
 	"encoding/hex"
 	"encoding/json"
+	"fmt"
 	"io"
 	"os"
 	"strings"
+	"syscall"
 	"testing"
+	"unsafe"
 
+	"github.com/mk6i/mkdb/engine"
 	"github.com/mk6i/mkdb/sql"
+	"github.com/mk6i/mkdb/storage"
+	"golang.org/x/term"
 )
 
 type verifStream struct {
@@ -146,4 +154,152 @@ func sprint(v interface{}) string {
 		return s
 	}
 	return "non-string panic value"
+}
+
+// ---------------------------------------------------------------------------
+// End to end: the console's own runTerminal loop on a pseudo-terminal, with a
+// real engine.Session behind it. Keystrokes go into the pty master; what
+// reached the engine is read back from the database afterwards.
+
+type verifE2EOut struct {
+	Rows  [][2]string `json:"rows"` // (n, s) of table log, in order: i<dec>, s<hex>
+	Err   string      `json:"err,omitempty"`
+	Panic string      `json:"panic,omitempty"`
+}
+
+func verifOpenPty() (master, slave *os.File, err error) {
+	master, err = os.OpenFile("/dev/ptmx", os.O_RDWR|syscall.O_NOCTTY, 0)
+	if err != nil {
+		return nil, nil, err
+	}
+	var unlock int32
+	if _, _, e := syscall.Syscall(syscall.SYS_IOCTL, master.Fd(), syscall.TIOCSPTLCK, uintptr(unsafe.Pointer(&unlock))); e != 0 {
+		return nil, nil, e
+	}
+	var n uint32
+	if _, _, e := syscall.Syscall(syscall.SYS_IOCTL, master.Fd(), syscall.TIOCGPTN, uintptr(unsafe.Pointer(&n))); e != 0 {
+		return nil, nil, e
+	}
+	slave, err = os.OpenFile(fmt.Sprintf("/dev/pts/%d", n), os.O_RDWR|syscall.O_NOCTTY, 0)
+	return master, slave, err
+}
+
+func TestVerifE2E(t *testing.T) {
+	in, outp := os.Getenv("VERIF_IN"), os.Getenv("VERIF_OUT")
+	if in == "" {
+		t.Skip("no script")
+	}
+	b, err := os.ReadFile(in)
+	if err != nil {
+		t.Fatal(err)
+	}
+	var streams []verifStream
+	if err := json.Unmarshal(b, &streams); err != nil {
+		t.Fatal(err)
+	}
+	master, slave, err := verifOpenPty()
+	if err != nil {
+		t.Fatal("pty: " + err.Error())
+	}
+	if _, err := term.MakeRaw(int(slave.Fd())); err != nil {
+		t.Fatal("raw: " + err.Error())
+	}
+	// runTerminal works on file descriptors 0 and 1
+	if err := syscall.Dup2(int(slave.Fd()), 0); err != nil {
+		t.Fatal(err)
+	}
+	if err := syscall.Dup2(int(slave.Fd()), 1); err != nil {
+		t.Fatal(err)
+	}
+	go io.Copy(io.Discard, master) // prompt, echo and result tables
+	outs := make([]verifE2EOut, len(streams))
+	for i, st := range streams {
+		func() {
+			o := &outs[i]
+			defer func() {
+				if r := recover(); r != nil {
+					o.Panic = "panic: " + strings.SplitN(strings.TrimSpace(sprint(r)), "\n", 2)[0]
+				}
+			}()
+			db := fmt.Sprintf("e%d", i)
+			sess := &engine.Session{}
+			for _, q := range []string{"CREATE DATABASE " + db, "USE " + db, "CREATE TABLE log (n INT, s VARCHAR(120))"} {
+				if err := sess.ExecQuery(q); err != nil {
+					o.Err = "setup: " + err.Error()
+					return
+				}
+			}
+			raw, _ := hex.DecodeString(st.Hex)
+			raw = append(raw, 4) // Ctrl-D on an empty line ends the session
+			done := make(chan error, 1)
+			go func() {
+				k := 0
+				for len(raw) > 0 {
+					n := len(raw)
+					if len(st.Chunks) > 0 {
+						if c := st.Chunks[k%len(st.Chunks)]; c < n {
+							n = c
+						}
+						k++
+					}
+					if _, err := master.Write(raw[:n]); err != nil {
+						done <- err
+						return
+					}
+					raw = raw[n:]
+				}
+				done <- nil
+			}()
+			rerr := runTerminal(sess)
+			if werr := <-done; werr != nil {
+				o.Err = "typing: " + werr.Error()
+				return
+			}
+			if rerr != nil {
+				o.Err = "runTerminal: " + rerr.Error()
+				return
+			}
+			sess.Close()
+			rm, err := storage.OpenRelation(db, true)
+			if err != nil {
+				o.Err = "open: " + err.Error()
+				return
+			}
+			defer rm.Close()
+			ts := sql.NewTokenScanner(strings.NewReader("select n, s from log"))
+			tl := sql.TokenList{}
+			for ts.Next() {
+				tl.Add(ts.Cur())
+			}
+			p := sql.Parser{TokenList: tl}
+			q, err := p.Parse()
+			if err != nil {
+				o.Err = "parse: " + err.Error()
+				return
+			}
+			rows, _, err := engine.EvaluateSelect(q.(sql.Select), rm)
+			if err != nil {
+				o.Err = "select: " + err.Error()
+				return
+			}
+			for _, r := range rows {
+				var c [2]string
+				for j := 0; j < 2 && j < len(r.Vals); j++ {
+					switch x := r.Vals[j].(type) {
+					case int64:
+						c[j] = fmt.Sprintf("i%d", x)
+					case string:
+						c[j] = "s" + hex.EncodeToString([]byte(x))
+					default:
+						c[j] = fmt.Sprintf("x%v", x)
+					}
+				}
+				o.Rows = append(o.Rows, c)
+			}
+		}()
+	}
+	res, _ := json.Marshal(outs)
+	if err := os.WriteFile(outp, res, 0644); err != nil {
+		t.Fatal(err)
+	}
 }
